@@ -103,8 +103,8 @@ TRUSTED = [
     "-- and the `levels2` stream compares it with pandas on every run), `pandas.get_dummies`, numpy/scipy/pandas type promotion "
     "and narwhals' / pyarrow's conversions (`Series.to_pandas`, `Table.from_pandas`, `from_dict`, `to_numpy`): they enter through "
     "the generated dtype tables and the correspondence, not through proofs",
-    "the dtype probe list of harness/translate.py (`dtype_builders`): the kind and dtype theorems quantify over exactly the dtypes "
-    "listed there (every constructor that works with the installed pandas/pyarrow); the dtype of a matrix with several columns is "
+    "the dtype probe list of harness/translate.py (`dtype_builders`, plus `kind_only_probes` for the kind table): the kind and "
+    "dtype theorems quantify over exactly the dtypes listed there (every constructor that works with the installed pandas/pyarrow); the dtype of a matrix with several columns is "
     "modelled as a left fold of the two-column stacking table (checked per case)",
     "rank reduction is modelled only for main-effects formulas (a categorical main effect is reduced iff the intercept or an "
     "earlier categorical main effect is present); the general rule is property C03; interactions are C02; coding matrices other "
@@ -135,20 +135,36 @@ ASSUMPTIONS = [
     "category labels are compared by their printed form (`str(level)`); an object column may mix text, integers, booleans and "
     "bytes (floats in object columns and levels whose labels coincide, like 9 and '9', are left out: pandas converts the former "
     "and the latter give two columns one name)",
-    "na_action='ignore' is exercised only where a null is a float NaN or a text/categorical null (nullable extension "
-    "dtypes hand back `pandas.NA` objects under 'ignore'; that is the caller's request, not an encoding matter); dtypes are "
-    "compared only for matrices with at least one row and for frame input (pandas re-infers the dtypes of a dict / record array)",
+    "na_action='ignore' is exercised where a null is a float NaN, a text/categorical null or (dtypes stream) a missing value of "
+    "a nullable boolean dtype (`boolean`, `bool[pyarrow]`: it must come out as NaN in a numeric matrix -- the tree under test "
+    "needed a repair for that); nullable integer / float extension dtypes with a missing value under 'ignore' are not generated; "
+    "dtypes are compared only for matrices with at least one row and for frame input (pandas re-infers the dtypes of a dict / "
+    "record array)",
+    "pandas' Arrow-backed dtypes: a dictionary of string / large_string / int64 values (also ordered; the Arrow-backed "
+    "categorical, family categorical, declared order = the dictionary) and Arrow binary / large_binary (family text; the values "
+    "are `bytes`, generated from ASCII characters above the apostrophe so that the labels `b'..'` sort like the bytes) are in the "
+    "kind table, the dtype tables and every stream; the Arrow view types (string_view, binary_view) are in the kind table only: "
+    "pandas itself cannot take / filter / convert such a column (NotImplementedError / ArrowNotImplementedError inside pandas and "
+    "pyarrow), so no matrix is requested for them",
+    "observed by reviewers, outside the quantified dtypes / in the column-name-collision family, not checked here: a data column "
+    "whose own name equals a generated level column name (`A[T.b]` next to the text column A) under the narwhals materializer "
+    "(= finding C10-F2); a frame with two columns of one label (`df['s']` is a frame); levels whose printed forms coincide (10 "
+    "and '10'); `string[python]` values that differ only by a trailing NUL (pandas' factorisation merges them); a Python list of "
+    "text taken from the context or `s.tolist()` (classified numerical); interaction column names that coincide "
+    "(`a[x]:b[y]:b[z]` from two different level pairs)",
     "a literal scale is applied only to columns whose scaled values stay inside their storage dtype (wrap-around in narrow "
     "integer dtypes is the known finding C02-F1); `C(<float16 column>)` is left out (pandas has no float16 index)",
     "known finding C08-F1 (classified, not a violation): output='narwhals' with a matrix that has no column at all raises TypeError",
 ]
 RULE = (
-    "dtypes: every dtype label of translate.dtype_builders x {pandas, narwhals on pandas, narwhals on pyarrow} x "
+    "dtypes: every dtype label of translate.dtype_builders (numpy, nullable-extension and Arrow-backed dtypes, incl. Arrow "
+    "dictionaries and Arrow binary) x {pandas, narwhals on pandas, narwhals on pyarrow} x "
     "{pandas, numpy, sparse} with formula `A + a` (A of the dtype under test, a float64), random values (1-6 rows; text from a "
     "pool with upper/lower case, digits, non-ASCII, spaces, names that look library-internal; categorical with random declared "
     "order and unused categories; nulls where the dtype can hold them; integer columns of every width hold the extremes of their "
     "dtype and the neighbours of +-2**53), the same for every integer dtype standing alone (`0 + n`, both rank settings), plus "
-    "random frames of 1-3 columns of random dtypes with intercept on/off, ensure_full_rank on/off, na_action drop/raise/ignore. "
+    "random frames of 1-3 columns of random dtypes with intercept on/off, ensure_full_rank on/off, na_action drop/raise/ignore "
+    "(under 'ignore' nulls in text, categorical, float and nullable boolean columns). "
     "row labels of the frames (random / history / entry / auto cases): the default 0..n-1 (40%), shuffled positions, offset "
     "reversed integers, text labels, repeated labels. "
     "history: frames of 2-4 columns (text / categorical / any dtype / object columns mixing text, integers, booleans, bytes), "
@@ -172,6 +188,18 @@ OUTPUTS = ["pandas", "numpy", "sparse"]
 # brackets of generated column labels): a level may be called anything
 TEXT_POOL = ["a", "b", "c", "B", "Z", "aa", "a b", "10", "9", "é", "x-y", "zeta", "Alpha", "_u", "__x", "__kind__", "T.b", "[z]"]
 CAT_POOL = ["lo", "mid", "hi", "top", "a", "b", "c", "Z", "__x", "__kind__", "T.b", "[z]"]
+# Arrow binary columns hold `bytes`: the cases write them as ASCII text (every character above the apostrophe, so that the
+# printed labels `b'..'` sort like the bytes themselves) and the column builder encodes it
+BINARY_LABELS = ("arrow:binary", "arrow:large_binary")
+BINARY_POOL = ["a", "b", "c", "B", "Z", "aa", "10", "9", "x-y", "zeta", "Alpha", "_u", "__x", "__kind__", "T.b", "[z]"]
+INT_CATEGORY_LABELS = translate.INT_CATEGORY_LABELS
+# nullable boolean dtypes: a missing value under na_action='ignore' must come out as NaN in a numeric matrix
+NULLABLE_BOOL_LABELS = ("boolean", "bool[pyarrow]")
+
+
+def level_label(col, v):
+    """the printed form of a level of a text / categorical column (`str(level)`)"""
+    return str(v.encode("ascii")) if col["label"] in BINARY_LABELS else str(v)
 
 
 def fstr(x) -> str:
@@ -232,11 +260,11 @@ def gen_column(rng, name, label, family, nrows, allow_null=True):
     col = dict(name=name, label=label, family=family)
     if family == "text":
         k = rng.randint(1, 4)
-        pool = rng.sample(TEXT_POOL, k)
+        pool = rng.sample(BINARY_POOL if label in BINARY_LABELS else TEXT_POOL, k)
         col["vals"] = [maybe(rng.choice(pool)) for _ in range(nrows)]
     elif family == "categorical":
         k = rng.randint(1, 4)
-        if label == "category[int]":
+        if label in INT_CATEGORY_LABELS:
             pool = rng.sample([1, 2, 3, 10, 20, -1], k)
         else:
             pool = rng.sample(CAT_POOL, k)
@@ -291,7 +319,7 @@ def random_case(rng):
     for name in ["A", "B", "t"][:ncol]:
         label = rng.choice(labels)
         family = bs[label][0]
-        allow_null = na != "ignore" or family in ("text", "categorical") or label in ("float32", "float64")
+        allow_null = na != "ignore" or family in ("text", "categorical") or label in ("float32", "float64") or label in NULLABLE_BOOL_LABELS
         cols.append(gen_column(rng, name, label, family, nrows, allow_null=allow_null))
     return dict(kind="dtypes", cols=cols, intercept=rng.random() < 0.7, efr=rng.random() < 0.7, na=na,
                 mat=rng.choice(MATS), output=rng.choice(OUTPUTS), index=gen_index(rng, nrows))
@@ -492,6 +520,8 @@ def impl(c):
 def col_request(col):
     t = {"text": "text", "categorical": "cat", "numeric": "num", "bool": "bool"}[col["family"]]
     out = dict(name=col["name"], dtype=col["label"], type=t, vals=col["vals"])
+    if col["label"] in BINARY_LABELS:
+        out["vals"] = [None if v is None else level_label(col, v) for v in col["vals"]]
     if t == "cat":
         out["declared"] = [str(x) for x in (col.get("declared") or sorted({v for v in col["vals"] if v is not None}))]
         out["vals"] = [None if v is None else str(v) for v in col["vals"]]
@@ -664,7 +694,7 @@ def oracle(c, o):
                 levels = sorted({v for v in vals if v is not None})
             else:
                 levels = [x for x in col["declared"]]
-            labels = [str(x) for x in levels]
+            labels = [level_label(col, x) for x in levels]
             # the emitted level columns of this factor
             emitted = []
             while pos < len(names) and names[pos].startswith(nm + "["):
@@ -765,6 +795,8 @@ def col_py(col):
     if fam == "numeric":
         is_f = col["label"].lower().startswith(("float", "double"))
         return [None if v is None else ({"f": v} if is_f else {"i": v}) for v in col["vals"]]
+    if col["label"] in BINARY_LABELS:
+        return [None if v is None else {"y": v} for v in col["vals"]]
     return [pv(v) for v in col["vals"]]
 
 
@@ -1095,6 +1127,10 @@ def native_frame(mm):
     w = mm.__wrapped__ if hasattr(mm, "__wrapped__") else mm
     if isinstance(w, pandas.DataFrame):
         return w
+    if hasattr(w, "replace_schema_metadata"):
+        # (a pyarrow table: without the pandas metadata of the frame it was made from -- pandas cannot parse back the
+        # names of some Arrow dtypes, e.g. an ordered dictionary)
+        w = w.replace_schema_metadata(None)
     return w.to_pandas()
 
 
@@ -1201,7 +1237,7 @@ def dtype_comparable(c, k):
         col = by.get(t["name"])
         if col is None or t.get("custom"):
             return False  # (the dtype of `dummies @ contrasts` is the user's: integer or float weights)
-        if col["family"] == "numeric" and k["na"] != "drop" and any(v is None for v in col_py(col)) and not t["isC"]:
+        if col["family"] in ("numeric", "bool") and k["na"] != "drop" and any(v is None for v in col_py(col)) and not t["isC"]:
             if col["label"] not in ("float16", "float32", "float64"):
                 return False
     return True
@@ -1318,7 +1354,8 @@ def oracle_call(c, k, r):
             elif col["family"] == "categorical":
                 want = col_declared(col)
             elif col["family"] == "text":
-                want = [{"s": s} for s in sorted({v["s"] for v in vals if v is not None})]
+                tag = "y" if col["label"] in BINARY_LABELS else "s"
+                want = [{tag: s} for s in sorted({v[tag] for v in vals if v is not None})]
             else:
                 want = None  # object column of mixed scalars, C(numeric column): the property text gives no order
             if t.get("custom"):
@@ -1657,8 +1694,8 @@ def classify(c, o, why):
 
 LEVEL_TEXT = (
     "Proof: Lean theorems (Props/C08.lean, 42 obligations). Decided over tables regenerated on every run from the live package: "
-    "every text and categorical dtype is CATEGORICAL and every numeric/bool dtype NUMERICAL for both materializers (narwhals on "
-    "pandas and on pyarrow input); the dtype of the returned matrix is an integer or floating-point dtype for every dtype label x "
+    "every text and categorical dtype (incl. pandas' Arrow-backed dictionary, binary and view dtypes) is CATEGORICAL and every "
+    "numeric/bool dtype NUMERICAL for both materializers (narwhals on pandas and on pyarrow input); the dtype of the returned matrix is an integer or floating-point dtype for every dtype label x "
     "route x output, under a literal scale, for the intercept and for any two columns stacked; the live column-name templates "
     "are the modelled ones for all names; the registered output types are the four modelled. Proved for ALL inputs: the level "
     "list inferred from any column of Python scalars is duplicate-free, covers exactly the non-null values, is represented by "
